@@ -92,6 +92,57 @@ def _nontrivial(case, obs):
     return (len(fs) != len(set(fs)) or removal) and any(t["op"] == "emit" for t in obs["trace"])
 
 
+def percall_fault_probe(n_good, pos, mixed):
+    """Implementation-only probe (NOT in the Lean model): RE(plan, subs) where ONE of the per-call callables cannot be
+    subscribed (an unhashable callable: CallbackRegistry hashes the callable) -- the call fails before the plan starts;
+    the callables subscribed before the failure are per-call subscriptions all the same: the NEXT call must not
+    deliver anything to them, and a permanent subscription must keep receiving."""
+    import logging
+
+    import bluesky.plans as bp
+    from bluesky.run_engine import RunEngine
+    from ophyd.sim import det
+
+    logging.getLogger("bluesky").setLevel(logging.CRITICAL)
+    got = {}
+
+    def mk(i):
+        def cb(name, doc):
+            got.setdefault(i, []).append(name)
+        return cb
+
+    class Unhashable:
+        __hash__ = None
+
+        def __call__(self, name, doc):
+            got.setdefault("bad", []).append(name)
+
+    RE = RunEngine({}, context_managers=[], loop=D._loop())
+    perm = mk("perm")
+    RE.subscribe(perm)
+    good = [mk(i) for i in range(n_good)]
+    subs = good[:pos] + [Unhashable()] + good[pos:]
+    arg = {"all": subs} if mixed == "dict" else subs
+    bad = []
+    try:
+        RE(bp.count([det], num=1), arg)
+        first = "ok"
+    except Exception as e:  # noqa
+        first = type(e).__name__
+    got.clear()
+    RE(bp.count([det], num=1))
+    for i in range(n_good):
+        if got.get(i):
+            bad.append(("leaked:per-call-subscription-of-a-call-that-failed-to-start", f"per-call callable #{i} (subs position {i if i < pos else i + 1}, unhashable callable at {pos}, first call ended {first}) received {got[i]} in the NEXT call"))
+    if got.get("perm") != ["start", "descriptor", "event", "stop"]:
+        bad.append(("silenced:permanent-subscription-after-failed-call", f"the permanent callable received {got.get('perm')} in the next call"))
+    return bad
+
+
+def percall_fault_cases():
+    return [{"probe": "percall-fault", "n_good": n, "pos": p, "mixed": m} for n in (1, 2, 3) for p in range(n + 1) for m in ("list", "dict")]
+
+
 def run(ctx, model=True):
     res = C.Result(
         rule="cases = corpus + every history of length <= 3 (thorough: 4) over {sub(f0|f1, all|start), unsub(0|1|2), emit(start|event)} "
@@ -122,6 +173,12 @@ def run(ctx, model=True):
             res.samples.append({"case": cases[i], "impl_replies": obss[i]["replies"], "model_replies": m["replies"], "final_state_impl": obss[i]["snaps"].get(max(obss[i]["snaps"]) if obss[i]["snaps"] else -1)})
     else:
         res.samples.append({"case": cases[-1], "impl_replies": obss[-1]["replies"]})
+    for pc in percall_fault_cases():
+        res.seen(pc, True)
+        res.count("impl-only-probe:percall-subscription-fault")
+        for sig, what in percall_fault_probe(pc["n_good"], pc["pos"], pc["mixed"]):
+            res.violations.append(C.Violation(sig, "implementation-only probe: " + what, pc))
+    res.notes.append("per-call subs with one callable that cannot be subscribed (unhashable) are probed on the implementation only")
     return res
 
 
@@ -133,6 +190,10 @@ def replay(ctx, data):
     res = C.Result()
     case = data.get("case")
     if not case:
+        return res
+    if case.get("probe") == "percall-fault":
+        for sig, what in percall_fault_probe(case["n_good"], case["pos"], case["mixed"]):
+            res.violations.append(C.Violation(sig, what, case))
         return res
     obs = D.run_impl(case)
     for sig, what in oracle(case, obs):
